@@ -347,6 +347,23 @@ fn c01_models(tier: Tier, props: Vec<&'static str>) -> Vec<(TowerModel, usize)> 
 pub fn c01(tier: Tier) -> i32 {
     let run = Run::new("C01", "model_checking", tier);
     run_models(&run, c01_models(tier, vec!["C01"]), budget(tier, 45, 700));
+    // Bind the in-process wiring (mirror of teos/src/main.rs) to the real teosd binary: replay the
+    // conformance histories against it and compare tables, replies and submissions.
+    if !crate::conform::teosd_binary().exists() {
+        eprintln!("MACHINERY-ERROR: {} is missing (./check builds it)", crate::conform::teosd_binary().display());
+        return 2;
+    }
+    let (ok, bad) = crate::conform::run_all(usize::MAX);
+    run.set("traces_validated_against_impl", json!(ok));
+    run.set("conformance", json!("histories replayed against the real teosd process (simulated bitcoind over HTTP JSON-RPC, requests over the public HTTP API) and compared with the in-process run: replies, users, appointments, trackers, submissions"));
+    for (name, e) in bad {
+        run.violation(
+            &format!("conformance:teosd-differs-from-in-process-wiring:{name}"),
+            format!("the real teosd binary and the harness's mirror of main.rs disagree: {e}"),
+            json!({"engine": "conform", "trace": name}),
+            1,
+        );
+    }
     run.finish()
 }
 
